@@ -745,6 +745,15 @@ impl TypeSpace {
         };
         // TODO need a type alias?
         if let Some(entry_name) = type_entry.name() {
+            match self.name_to_id.get(entry_name) {
+                Some(existing_id) if existing_id != &type_id => {
+                    return Err(Error::InvalidSchema {
+                        type_name: Some(entry_name.clone()),
+                        reason: "multiple types map to the same name".to_string(),
+                    });
+                }
+                _ => {}
+            }
             self.name_to_id.insert(entry_name.clone(), type_id.clone());
         }
         self.id_to_entry.insert(type_id, type_entry);
